@@ -2,11 +2,13 @@ import PolyVerif.Props.C17
 /-
 C17, orders 9, 10, 11 of the generated sequence.  Kernel evaluation is out of reach here (order 9
 did not finish in 18 minutes and 36 GB), so the checker is run as COMPILED code: `native_decide`.
-This is the ONLY file of the framework that uses it; its theorems depend on the additional axioms
-`Lean.ofReduceBool` / `Lean.trustCompiler` (declared in the trusted base; the audit allows them for
-this module and for no other).  What is evaluated is the same pair as for orders 1..8 — the model
+This is the ONLY file of the framework that uses it.  In this Lean version every use of
+`native_decide` adds an axiom of its own, `<theorem>._native.native_decide.ax_*` (it no longer goes
+through `Lean.ofReduceBool`), so `#print axioms db_ok_9` shows `db_ok_9._native.native_decide.ax_1_1`:
+the Lean compiler is trusted for these three evaluations (declared in the trusted base; the audit
+accepts such an axiom for this module only, and only when it is named after one of its theorems).  What is evaluated is the same pair as for orders 1..8 — the model
 `deBruijn n` and the verified checker (`checkWith k`, sound for every pass count `k`:
-`checkWith_sound`); `k` only trades passes for mask size.  Built by setup and by the thorough tier.
+`checkWith_sound`); `k` only trades passes for mask size.  Built and audited by setup and by both tiers.
 The same checker is also run on the REAL output of the Go function for n = 1..11 on every run
 (correspondence judge), and the real output is compared with the model's.
 -/
